@@ -1,47 +1,5 @@
 //! vcheck: one sub-command per property.
 
-mod util;
-mod c01;
-mod c02;
-mod c03;
-mod c04;
-mod c05;
-mod c06;
-mod c07;
-mod c08;
-mod c09;
-mod c10;
-mod c11;
-mod c12;
-mod c13;
-mod c14;
-mod c16;
-mod c17;
-mod c18;
-mod c19;
-mod c20;
-
 fn main() {
-    vcore::main_for(|id| match id {
-        "C01" => Some(c01::check()),
-        "C02" => Some(c02::check()),
-        "C03" => Some(c03::check()),
-        "C04" => Some(c04::check()),
-        "C05" => Some(c05::check()),
-        "C06" => Some(c06::check()),
-        "C07" => Some(c07::check()),
-        "C08" => Some(c08::check()),
-        "C09" => Some(c09::check()),
-        "C10" => Some(c10::check()),
-        "C11" => Some(c11::check()),
-        "C12" => Some(c12::check()),
-        "C13" => Some(c13::check()),
-        "C14" => Some(c14::check()),
-        "C16" => Some(c16::check()),
-        "C17" => Some(c17::check()),
-        "C18" => Some(c18::check()),
-        "C19" => Some(c19::check()),
-        "C20" => Some(c20::check()),
-        _ => None,
-    })
+    vcore::main_for(vcheck::lookup)
 }
